@@ -58,3 +58,14 @@ claim("C01",
       "trusts vf/ref/timeexpr.py and vf/ref/serial.py; TTML frame rate 30; either neighbour "
       "accepted for >6 fraction digits",
       "DESIGN.md 3/C01")
+claim("C03",
+      "Hypothesis metacharacter-pool texts x 7 writers, outputs parsed by independent "
+      "conformant parsers (strict lxml XML, html.parser, own WebVTT/SRT/MicroDVD grammars); "
+      "line-for-line comparison",
+      "Generated-input search: 20k (thorough 600k) single-language sets whose lines are built "
+      "from each format's delimiters, escapes and look-alikes mixed with printable Unicode, "
+      "with empty lines and split text nodes; every cue parsed back by a parser that shares no "
+      "code with pycaption must give exactly the authored lines and the same number of cues.",
+      "trusts vf/ref/parsers.py; whitespace inside a line that was split into several text "
+      "nodes is not compared",
+      "DESIGN.md 3/C03")
